@@ -608,12 +608,21 @@ def _bool_only_locals(prog, func):
     # a local that is returned is a boolean result variable only if it is
     # also assigned a literal True/False somewhere (``ok = False ... ok =
     # f(x) ... return ok``); ``x = f(); return x`` returns a value
+    def boolean(v):
+        # syntactically a truth value whatever its operands are
+        if isinstance(v, ast.Constant):
+            return v.value is True or v.value is False
+        if isinstance(v, ast.UnaryOp):
+            return isinstance(v.op, ast.Not)
+        if isinstance(v, ast.Compare):
+            return True
+        if isinstance(v, ast.BoolOp):
+            return all(boolean(x) for x in v.values)
+        return False
     has_bool_const = {
         n.targets[0].id for n in ast.walk(func.node)
         if isinstance(n, ast.Assign) and len(n.targets) == 1 and
-        isinstance(n.targets[0], ast.Name) and isinstance(
-            n.value, ast.Constant) and (n.value.value is True or
-                                        n.value.value is False)}
+        isinstance(n.targets[0], ast.Name) and boolean(n.value)}
     returned = {n.value.id for n in ast.walk(func.node)
                 if isinstance(n, ast.Return) and isinstance(
                     n.value, ast.Name)}
